@@ -25,6 +25,7 @@
   constant result, which is the `none` branch below.
 -/
 import EasyMl.Lemmas.TapeProg
+import EasyMl.Lemmas.TapeNode
 import EasyMl.Lemmas.Prog
 import EasyMl.Lemmas.RealBridge
 
@@ -135,6 +136,58 @@ example [RealFns ℤ] (p : Prog ℤ) (hp : p.WellScoped) (hnd : p.usesDiv = fals
   obtain ⟨w, recs, h1, h2, _⟩ :=
     reverse_eq_grad p hp (Or.inl hnd) 0 env World.empty Tape.WF_nil
   exact ⟨w, recs, h1, h2⟩
+
+/-- **The whole derivative vector: every intermediate step, not only the inputs.**
+    (`WengertList` docs: "compute all the gradients of the inputs and every intermediate step
+    with respect to an output".)  For every result `k` and every instruction `m` whose record has
+    a tape — an input *or an intermediate result* — the entry of `derivatives()` of `k` at the
+    position of `m`'s record is `∂(result k)/∂(node m)`: the derivative of `k` when the value of
+    node `m` is varied on its own (`Prog.gradNode`, the chain rule with the perturbation injected
+    at `m`).  For an input this is `Prog.grad` (second part), so `reverse_eq_grad` is the special
+    case. -/
+theorem reverse_every_node (p : Prog R) (hp : p.WellScoped) (hd : DivOK p) (h : Nat)
+    (env : Nat → R) (w0 : World R) (hw0 : Tape.WF (w0 h)) :
+    (∃ w recs, Prog.exec h env p w0 = (w, .ok recs) ∧
+      ∀ k m, k < p.length → m < p.length → (getRec recs m).isConstant = false →
+        ∀ adj, (getRec recs k).derivatives w = .ok adj →
+          adj.getD (getRec recs m).index 0 = (Prog.gradNode env p m).getD k 0) ∧
+    ∀ i, p.isInput i = true → Prog.gradNode env p i = Prog.grad env p i := by
+  refine ⟨?_, fun i hi => gradNode_eq_grad env p i hi⟩
+  obtain ⟨w, recs, hrun, hlen, hall⟩ := run_facts (h := h) (env := env) p hp hd w0 hw0
+  refine ⟨w, recs, hrun, ?_⟩
+  intro k m hk hm hmc adj hadj
+  obtain ⟨tseed0, hinv0, _⟩ := hall 0
+  have hms : (getRec recs m).history.isSome = true := by
+    unfold Rec.isConstant at hmc
+    cases hh : (getRec recs m).history <;> simp [hh] at hmc ⊢
+  have hdm : (Prog.deps p).getD m false = true := by
+    rw [← hinv0.dep m (by omega)]; exact hms
+  obtain ⟨w', recs', tseed, hrun', hlen', hinv, hgn⟩ :=
+    run_facts_node (h := h) (env := env) p hp hd w0 hw0 m hdm
+  rw [hrun] at hrun'
+  cases hrun'
+  cases hh : (getRec recs k).history with
+  | none => simp [Rec.derivatives, Rec.tryDerivatives, hh] at hadj
+  | some h' =>
+    have hg := (hinv.good k (by omega)).2
+    simp only [hh] at hg
+    obtain ⟨rfl, hidx, htan⟩ := hg
+    obtain ⟨adj', hsweep, _, hdot⟩ := sweep_correct (w h') hinv.wf _ hidx
+    rw [Rec.derivatives_some _ _ _ hh, hsweep] at hadj
+    have e : adj' = adj := Outcome.ok.inj hadj
+    subst e
+    rw [← htan, ← hdot tseed]
+    have hchar : ∀ j, tseed j = if j = (getRec recs m).index then 1 else 0 := by
+      intro j
+      rw [hgn.char j]
+      by_cases hj : j = (getRec recs m).index
+      · rw [if_pos hj, if_pos ⟨by omega, hms, hj.symm⟩]
+      · rw [if_neg hj, if_neg]
+        rintro ⟨_, _, h2⟩
+        exact hj h2.symm
+    rw [dotF_congr adj' tseed _ (fun j _ => hchar j), dotF_indicator]
+
+example : (Prog.deps ([.var, .const 3, .arith .mul 0 1, .real .sin 2] : Prog R)).getD 2 false = true := rfl
 
 /-- **The value carried by every result is the computation on plain numbers.** -/
 theorem value_eq_plain (p : Prog R) (hp : p.WellScoped) (hd : DivOK p) (h : Nat) (env : Nat → R) (w0 : World R)
